@@ -151,6 +151,13 @@ def finish_network(prng, n, motifs):
     if prng.random() < 0.08:
         off = prng.choice((250, 995, 2 ** 31 - 3, 2 ** 63 + 5))      # non-negative (the label format is split on '-')
         perm = [x + off for x in perm]
+    if n >= 2 and motifs and prng.random() < 0.12:
+        # two vertices of ONE motif whose labels are different ints with the same hash (v and v + 2^61 - 1)
+        sh, verts = prng.choice(motifs)
+        if len(verts) >= 2:
+            a, b = prng.sample(list(verts), 2)
+            if perm[a] + interesting.HASH_MODULUS not in perm:
+                perm[b] = perm[a] + interesting.HASH_MODULUS
     out = []
     for uid, (shape, verts) in enumerate(motifs):
         vs = [perm[v] for v in verts]
